@@ -80,7 +80,7 @@ def gen_points(langs, n):
     for z in langs:
         for ln in lengths:
             sol = z3.Solver()
-            sol.set('timeout', 10000)
+            sol.set('timeout', 1500)
             sol.add(z3.InRe(s, z), z3.Length(s) == ln)
             if str(sol.check()) == 'sat':
                 w = strlang.model_string(sol.model(), s)
@@ -205,15 +205,37 @@ def check_deployment(R, label, dc, fn_node, modglobals):
         R.sample({'deployment': label, nm: w})
 
     # ---- the property ------------------------------------------------------------------------------------
+    ascii_print = z3.Star(strlang.z3_charset([(0x21, 0x7e)]))
+
     def decide(name, z, cls, describe):
-        r, w, dt = member(z)
-        if r == 'unsat':
-            R.ob(name, 'discharged', dt, nontrivial=True)
-        elif r == 'sat':
+        # prefer a printable-ASCII witness (the state machine decides those completely); then any string.
+        # A witness on which the browser's parse fails (no navigation) or is outside the state machine is not a
+        # counterexample: it is excluded and the query repeated a few times; if nothing definite turns up the
+        # obligation is left not discharged.
+        total = 0.0
+        seen = []
+        for _ in range(6):
+            zz = z
+            for x in seen:
+                zz = z3.Intersect(zz, z3.Complement(strlang.re_lit(x)))
+            r, w, dt = member(z3.Intersect(zz, ascii_print))
+            total += dt
+            if r != 'sat':
+                r2, w, dt2 = member(zz)
+                total += dt2
+                r = r2 if r == 'unsat' or r2 == 'sat' else r
+            if r == 'unsat':
+                R.ob(name, 'discharged' if not seen else 'not_discharged', total,
+                     {'indefinite_witnesses': seen} if seen else None, nontrivial=True)
+                return
+            if r != 'sat':
+                break
             st = describe(w)
-            R.ob(name, st, dt, {'witness': w}, nontrivial=True)
-        else:
-            R.ob(name, 'not_discharged', dt, {'solver': r})
+            if st is not None:
+                R.ob(name, st, total, {'witness': w}, nontrivial=True)
+                return
+            seen.append(w)
+        R.ob(name, 'not_discharged', total, {'indefinite_witnesses': seen})
 
     def foreign(cls):
         def f(w):
@@ -222,6 +244,10 @@ def check_deployment(R, label, dc, fn_node, modglobals):
                 raise HarnessError(f'{label}: counterexample {w!r} is not accepted by the real {FN}')
             if k[0] == 'host' and k[2] in own:
                 raise HarnessError(f'{label}: counterexample {w!r}: state machine lands on own host {k}')
+            if k[0] in ('unknown', 'fail', 'nohost'):
+                # parse failure / no authority (no navigation), or outside the part of the WHATWG parser the state
+                # machine decides (IDNA, %-encoding, IP literals): not a definite counterexample
+                return None
             return R.finding(cls, f'{FN}({w!r}) accepted under {label} (own hosts {own}); WHATWG parse: {k}',
                              {'deployment': label, 'arg': w, 'own': own, 'base': [bscheme, bhost]})
         return f
@@ -269,7 +295,7 @@ def check_deployment(R, label, dc, fn_node, modglobals):
             if k[1] in M.SPECIAL and not (k[0] == 'host' and k[2] in own):
                 bad.append((p, loc, k))
         R.extra.setdefault('yarl_passthrough', []).append({'deployment': label, 'points': len(pts), 'foreign': bad[:3]})
-        if bad:
+        if bad and not R.violations:
             raise HarnessError(f'{label}: yarl rewrites accepted {bad[0][0]!r} to {bad[0][1]!r} which lands on {bad[0][2]}')
 
 
